@@ -89,6 +89,19 @@ func (g *G) Insert() ([]Tok, *ast.InsertStatement) {
 			}
 		}
 		s.OnConflict = oc
+	} else if g.F.MySQL && !g.F.Flat && g.chance(15, "onduplicate") {
+		g.use("on_duplicate_key")
+		up := &ast.UpsertClause{}
+		var sets [][]Tok
+		for i, n := 0, 1+g.intn(2, "nodkset"); i < n; i++ {
+			c := g.pick(colPool, "odkcol")
+			g.Names.Columns[c.name] = true
+			v := g.at(g.Value(), POr)
+			sets = append(sets, cat(sym(c.src, "="), v.T))
+			up.Updates = append(up.Updates, ast.UpdateExpression{Column: &ast.Identifier{Name: c.name}, Value: v.N})
+		}
+		t = cat(t, g.kw("ON", "DUPLICATE", "KEY", "UPDATE"), commaJoin(sets))
+		s.OnDuplicateKey = up
 	}
 	rt, rn := g.returning()
 	t = cat(t, rt)
@@ -138,6 +151,81 @@ func (g *G) Delete() ([]Tok, *ast.DeleteStatement) {
 	return t, s
 }
 
+// Replace draws MySQL REPLACE INTO t [(cols)] VALUES rows.
+func (g *G) Replace() ([]Tok, *ast.ReplaceStatement) {
+	g.use("replace")
+	tb := g.tableName()
+	s := &ast.ReplaceStatement{TableName: tb.name}
+	t := cat(g.kw("REPLACE", "INTO"), nameToks(tb))
+	w := 0
+	if g.chance(70, "repcols") {
+		w = 1 + g.intn(3, "nrepcols")
+		var cs [][]Tok
+		for i := 0; i < w; i++ {
+			c := g.pick(colPool, "repcol")
+			g.Names.Columns[c.name] = true
+			cs = append(cs, sym(c.src))
+			s.Columns = append(s.Columns, &ast.Identifier{Name: c.name})
+		}
+		t = cat(t, sym("("), commaJoin(cs), sym(")"))
+	} else {
+		w = 1 + g.intn(3, "reprowwidth")
+	}
+	var rows [][]Tok
+	for r, n := 0, 1+g.intn(3, "nreprows"); r < n; r++ {
+		ts, ns := g.args(w)
+		rows = append(rows, cat(sym("("), commaJoin(ts), sym(")")))
+		s.Values = append(s.Values, ns)
+	}
+	return cat(t, g.kw("VALUES"), commaJoin(rows)), s
+}
+
+// Show draws the MySQL SHOW forms the parser's own documentation lists; Describe DESCRIBE t.
+func (g *G) Show() ([]Tok, *ast.ShowStatement) {
+	g.use("show")
+	s := &ast.ShowStatement{}
+	t := g.kw("SHOW")
+	switch g.intn(7, "showkind") {
+	case 0:
+		t = cat(t, g.kw("TABLES"))
+		s.ShowType = "TABLES"
+		if g.chance(30, "showfrom") {
+			d := g.pick(schemaP[:2], "showdb")
+			t = cat(t, g.kw("FROM"), sym(d.src))
+			s.From = d.name
+		}
+	case 1:
+		t = cat(t, g.kw("DATABASES"))
+		s.ShowType = "DATABASES"
+	case 2:
+		tb := g.plainTable()
+		t = cat(t, g.kw("CREATE", "TABLE"), nameToks(tb))
+		s.ShowType, s.ObjectName = "CREATE TABLE", tb.name
+	case 3:
+		tb := g.plainTable()
+		t = cat(t, g.kw("COLUMNS", "FROM"), nameToks(tb))
+		s.ShowType, s.ObjectName = "COLUMNS", tb.name
+	case 4:
+		w := []string{"INDEX", "INDEXES", "KEYS"}[g.intn(3, "showindexword")]
+		tb := g.plainTable()
+		t = cat(t, g.kw(w, "FROM"), nameToks(tb))
+		s.ShowType, s.ObjectName = w, tb.name
+	case 5:
+		t = cat(t, g.kw("STATUS"))
+		s.ShowType = "STATUS"
+	default:
+		t = cat(t, g.kw("VARIABLES"))
+		s.ShowType = "VARIABLES"
+	}
+	return t, s
+}
+
+func (g *G) Describe() ([]Tok, *ast.DescribeStatement) {
+	g.use("describe")
+	tb := g.plainTable()
+	return cat(g.kw("DESCRIBE"), nameToks(tb)), &ast.DescribeStatement{TableName: tb.name}
+}
+
 // Statement draws one statement of the model grammar.
 func Statement(g *G) Stmt {
 	var t []Tok
@@ -147,10 +235,13 @@ func Statement(g *G) Stmt {
 	if g.F.Flat && k >= 15 && k < 18 {
 		k = 0 // UPDATE has SET after its first token
 	}
-	if (g.F.DDL || g.F.Merge) && !g.F.Flat && g.chance(30, "ddl_or_merge") {
+	if (g.F.DDL || g.F.Merge || g.F.MySQL) && !g.F.Flat && g.chance(30, "ddl_or_merge") {
 		var kinds []string
 		if g.F.Merge {
 			kinds = append(kinds, "merge", "merge")
+		}
+		if g.F.MySQL {
+			kinds = append(kinds, "replace", "show", "describe")
 		}
 		if g.F.DDL {
 			kinds = append(kinds, "create_table", "create_table", "create_index", "create_view", "create_materialized_view", "drop", "truncate", "refresh")
@@ -176,6 +267,12 @@ func Statement(g *G) Stmt {
 			t, n = g.Truncate()
 		case "alter_table":
 			t, n = g.Alter()
+		case "replace":
+			t, n = g.Replace()
+		case "show":
+			t, n = g.Show()
+		case "describe":
+			t, n = g.Describe()
 		default:
 			t, n = g.Refresh()
 		}
